@@ -18,11 +18,13 @@ T0, STEP = 1000, 10
 class Table:
     """n rows; symbolic data columns, concrete times"""
 
-    def __init__(self, n, streams=('a', 'b'), missing=None, with_axes=('time', 'z', 'lat', 'lon'), index_labels=None, concrete=None):
+    def __init__(self, n, streams=('a', 'b'), missing=None, with_axes=('time', 'z', 'lat', 'lon'), index_labels=None, concrete=None, time_order=None):
         self.concrete = concrete or {}       # column -> list of concrete numbers (instead of symbolic atoms)
         self.extra_vars = {}                  # xarray only: variable name -> length, living on its own dimension without a time coordinate
         self.n = n
         self.t = [T0 + STEP * i for i in range(n)]
+        if time_order is not None:            # rows not in chronological order
+            self.t = [T0 + STEP * k for k in time_order]
         self.streams = list(streams)
         self.missing = missing or {}          # column -> set of row numbers that are NaN
         self.axes = tuple(with_axes)
